@@ -53,7 +53,7 @@ def eval_leg(pid, leg, cases, tier, workdir, name):
     out = {}
     for profile in leg.get("profiles", ["debug"]):
         cs = common.run_harness(leg["family"], cases, profile, workdir, name)
-        corr_fail, orc_fail, err = common.run_model(fam, cs, leg.get("mask"), leg.get("oracles", []), workdir,
+        corr_fail, orc_fail, err = common.run_model(fam, cs, leg.get("mask"), leg.get("oracles", []) + leg.get("tie_oracles", []), workdir,
                                                     "%s_%s" % (name, profile), coq_sample=(4 if profile == "debug" else 0))
         out[profile] = dict(cases=cs, corr_fail=corr_fail, orc_fail=orc_fail, err=err)
     return out
@@ -84,7 +84,7 @@ def main():
           "violations": 0}
     cov = ev["coverage"]
 
-    with common.BuildLock():
+    with common.BuildLock() as build_lock:
         # ---- 1. translator
         ok_tr, tr_out = common.translate()
         cov["translator"] = tr_out.strip().splitlines()[-1] if tr_out.strip() else ""
@@ -136,6 +136,10 @@ def main():
         if not ok_h:
             # the crate (with hooks) no longer builds against the harness: the tie cannot be evaluated
             notes.append("HARNESS-BUILD-FAILED: " + h_log[-1500:])
+        else:
+            common.stage_harness(workdir, sorted({p for l in spec["legs"] for p in l.get("profiles", ["debug"])}))
+        # everything that is shared between checks has been built; case evaluation uses only the work directory
+        build_lock.release()
 
         # ---- replay mode
         if args.replay:
@@ -184,6 +188,14 @@ def main():
                                         "ops": [[c, a[:12]] for c, a in c0.ops[:12]], "obs": [o[:12] for o in c0.obs[:12]]})
                     # oracle failures on the crate's own observations: the property is violated
                     for o, idxs in r["orc_fail"].items():
+                        if o in leg.get("tie_oracles", []):
+                            # a tie oracle compares the model's functions with the crate's on values only the crate can
+                            # supply (e.g. bounds as a function of the crate's own estimate): a failure is a broken
+                            # correspondence, not yet a violation of the property
+                            for i in idxs:
+                                if not any(i in v for oo, v in r["orc_fail"].items() if oo not in leg.get("tie_oracles", [])):
+                                    corr_broken.append((leg, profile, cs[i], "model != crate (tie oracle %s)" % o))
+                            continue
                         for i in idxs:
                             c = cs[i]; c.failed_oracle = o
                             handle_failure(pid, leg, profile, c, "oracle", o, known, violations, known_hits, workdir)
@@ -268,8 +280,12 @@ def handle_failure(pid, leg, profile, c, kind, oracle, known, violations, known_
         return
     fam = load_family(leg["family"])
 
+    had_empty = any(o == [-996] for o in (c.obs or []))
+
     def still_fails(c2):
         cs = common.run_harness(leg["family"], [c2], profile, workdir, "shrink")
+        if not had_empty and any(o == [-996] for o in (cs[0].obs or [])):
+            return False     # removing the op that created a sketch leaves ops on an empty slot: not the same failure
         if kind == "panic":
             return cs[0].panic is not None
         _, orc, err = common.run_model(fam, cs, leg.get("mask"), [oracle], workdir, "shrink", nshards=1)
